@@ -190,6 +190,20 @@ def search_direction(repo: Repo, fi: FuncInfo) -> str | None:
     A backward search reaches a `direct_predecessor_nodes` expansion (it may also walk down the hierarchy through successors);
     a forward search reaches successor expansions only.
     """
+    # the search model knows in which direction each public search walks *as it is called* (the walk may live in a helper class or
+    # in a helper shared by both directions, which the reachability scan below cannot tell apart)
+    dirs = repo.__dict__.get("_search_directions")
+    if dirs is None:
+        dirs = {}
+        try:
+            from . import search as S
+
+            dirs = {m.base.fq: m.direction for m in S.models(repo) if m.base is not None}
+        except AnalysisError:
+            pass  # shape not modelled: the reachable accessors decide (below); C01.S reports the model's failure
+        repo.__dict__["_search_directions"] = dirs
+    if fi.fq in dirs:
+        return dirs[fi.fq]
     mod = fi.module
     seen, work = set(), [fi]
     attrs: set[str] = set()
